@@ -12,7 +12,11 @@ Local Open Scope string_scope.
    cached address) *)
 Definition allow_shared : list (string * string) :=
   [("StateDB", "db"); ("Validator", "MainPubKey"); ("Validator", "BlsPubKey"); ("Validator", "Ext");
-   ("Validator", "consAddr"); ("stateObject", "data"); ("stateObject", "db"); ("stateObject", "code")].
+   ("Validator", "consAddr"); ("stateObject", "data"); ("stateObject", "db"); ("stateObject", "code");
+   (* new containers whose elements come from the source: fresh log copies built in
+      the loop, immutable preimage byte strings, empty structs, uint16 counters *)
+   ("StateDB", "logs"); ("StateDB", "preimages"); ("StateDB", "stakingRecordsDirty");
+   ("pendingRelationship", "delegatorPendingCount"); ("pendingRelationship", "validatorPendingCount")].
 (* fields deliberately not carried: per-transaction context, error memo, the
    snapshot bookkeeping (snapshots do not apply to a copy), a derived cache *)
 Definition allow_missing : list (string * string) :=
